@@ -1076,6 +1076,11 @@ func UtxoValidateInsufficientCollateral(
 	if fee == nil {
 		fee = new(big.Int)
 	}
+	if collReturn := tx.CollateralReturn(); collReturn != nil {
+		if amount := collReturn.Amount(); amount != nil {
+			totalCollateral.Sub(totalCollateral, amount)
+		}
+	}
 	required := new(big.Int).Mul(
 		fee,
 		new(big.Int).SetUint64(uint64(tmpPparams.CollateralPercentage)),
